@@ -18,6 +18,88 @@ CLAIMS = {
     note=COMMON_NOTE + 'Full strength for the model; object aliasing in the Python code is not expressible in the model and is covered by the snapshots only.',
     technique='Lean 4 proof: invariant relation (Step) by weakest-precondition tactic over the whole model + differential correspondence',
     ref='7 C04'),
+ 'C01': dict(
+    text='Proved for the model: applying any API option values never raises; an ill-formed replacement regex is reported and ignored; a template group that did '
+         'not participate is blank and one the pattern lacks is reported; the fragmenting loop terminates within |text|+1 steps for every replacement pattern '
+         '(empty-matching ones included); the inline layer can exhaust fuel only through a nested span render (the known finding F5). Absence of the other '
+         'exception kinds at every block-layer call site is not proved; it is checked by requiring implementation and model to raise the same kind of exception '
+         'or none on generated, malformed, corpus-mutated and stress inputs (thousands of elements, depth-50 nesting) and histories with degenerate definitions.',
+    note=COMMON_NOTE + 'Partial: the listed theorems are proofs; full totality is exploration + correspondence. Python recursion limit and memory are runtime limits '
+         'reached only by the stress stream. F5 is an open known finding (known_findings.json).',
+    technique='Lean 4 proof (exception-footprint judgement Safe, fuel adequacy by induction, regex search bounds) + differential correspondence with exception kinds',
+    ref='7 C01'),
+ 'C09': dict(
+    text='Proved for the model: the generated code / indented block definitions process special characters only and the generated code quotes are non-span; with such '
+         'options and no pending block options the block text is transformed by exactly replaceSpecialChars with no state change, for every text; '
+         'replaceSpecialChars is the identity away from < > &. The dispatch of the fence lines and the placeholder restoration inside code quotes are evaluated in '
+         'the kernel on concrete instances and checked on generated code regions filled with markup of every other kind, all 16 safe modes.',
+    note=COMMON_NOTE + 'Partial: the transformation theorem is universal; that a given fenced / indented / backtick region reaches it (dispatch) is by kernel evaluation of instances and exploration.',
+    technique='Lean 4 proof of the verbatim transformation + facts on regenerated definition tables + kernel-evaluated instances + differential correspondence',
+    ref='7 C09'),
+ 'C11': dict(
+    text='Proved for the model: macros.setValue is skipped where definitions are not allowed, keeps the blank macro blank (with a diagnostic), replaces the value of '
+         'an existing name, never overrides through an existential definition, appends a new name; lookup after update returns the new value; an escaped '
+         'invocation is left as written without its backslash; a simple invocation of a defined macro is its value, of an undefined one the invocation itself '
+         'with exactly one diagnostic unless silent. Parameter substitution and inclusion/exclusion are evaluated in the kernel on instances and checked '
+         'against hand-substituted twin documents.',
+    note=COMMON_NOTE + 'Partial: table semantics and the simple/escaped/undefined cases are universal proofs; parametrised, inclusion and exclusion forms are exploration.',
+    technique='Lean 4 proof (equational, macro table semantics) + kernel-evaluated instances + twin-document oracle',
+    ref='7 C11'),
+ 'C12': dict(
+    text='Proved for the model, independent of any regex: injectHtmlAttributes on a non-empty tag leaves nothing pending; on an empty tag it consumes nothing; with '
+         'nothing pending it returns the tag unchanged and changes no state (so blocks after the consumer are untouched); with safe-mode bit 4 an attribute '
+         'line has no effect; every delimited-block step ends with the block options cleared. The correspondence check compares documents with and '
+         'without attribute lines in all 16 modes, HTML-block targets included.',
+    note=COMMON_NOTE + 'The consume-once state machine is proved; that each block rule calls the injector on its first tag is by correspondence/exploration.',
+    technique='Lean 4 proof (state machine of blockattributes, wp) + with/without-attributes oracle',
+    ref='7 C12'),
+ 'C13': dict(
+    text='Proved for the model: htmlSafeModeFilter returns the text / nothing / the replacement / the escaped text according to safeMode & 3, and an unescaped inline '
+         'HTML tag or comment becomes exactly that value whatever the definition template; the policy bits are read nowhere else in the model source. That the '
+         'rest of the rendering is independent of the policy is not proved (a two-run statement); it is decided by aligning the three outputs around a fresh '
+         'sentinel on generated sources, higher bits 0/4/8/12.',
+    note=COMMON_NOTE + 'Partial: policy semantics proved; policy-independence of the surrounding markup is exploration.',
+    technique='Lean 4 proof of the policy function + three-policy alignment oracle',
+    ref='7 C13'),
+ 'C14': dict(
+    text='Proved for the model: a render call without options on an initialised session is exactly document.render on the state the previous call left (only the '
+         'callback registration is dropped), for every successful first call - so definitions, options, ids and pending attributes carry across calls exactly as '
+         'across blocks. The sequencing property of document.render itself (C08) is not proved; pairs and triples of complete documents are rendered split and '
+         'joined and compared (html modulo newlines, diagnostics as sets, final state).',
+    note=COMMON_NOTE + 'Partial: API-layer transparency proved; block sequencing is exploration.',
+    technique='Lean 4 proof (API prefix is the identity) + split-versus-joined oracle',
+    ref='7 C14'),
+ 'C15': dict(
+    text='Proved for the model: slugify changes no state and returns an id that is not registered - the base slug if free, else base-n for the least free n >= 2; '
+         'injectId lower-cases the id, registers it when new (no diagnostic) and otherwise issues exactly one duplicate-id diagnostic and registers nothing; the '
+         'attribute written is the lower-cased id. Sessions with colliding, empty and suffix-looking slugs are compared with a reference allocation.',
+    note=COMMON_NOTE + 'str.lower is the generated per-character table plus the final-sigma rule (validated against CPython by the lower op of the driver, not proved).',
+    technique='Lean 4 proof (suffix search by induction, registry state machine) + reference-allocation oracle',
+    ref='7 C15'),
+ 'C16': dict(
+    text='Proved for the model: a source and its copy with U+0000-2 replaced by blanks have the same reader, hence the same rendering; no line handed to the renderer '
+         'contains a reserved code point; placeholders are restored from the queue in order, each exactly once, a missing entry is an IndexError and the '
+         'restored output contains no placeholder; the split pattern is the tree of \\r\\n|\\r|\\n. Invariance of the regex split under re-encoding of '
+         'terminators is not proved; re-encoded twins (uniform and mixed) are rendered and compared.',
+    note=COMMON_NOTE + 'Partial for the terminator clause (exploration); full for the reserved-character and placeholder clauses.',
+    technique='Lean 4 proof (reader blanking, placeholder queue induction) + re-encoded twin oracle',
+    ref='7 C16'),
+ 'C17': dict(
+    text='Proved for the model, for every rule and line: when the first rule that matches the line matches it with its leading backslash, no filter runs, no state '
+         'changes, nothing is written and the reader keeps the line without the backslash, marked escaped; an escaped line is then passed over by every line rule, '
+         'list rule and delimited-block rule except the paragraph; an escaped match of any replacement definition is its literal text. All 18 line-level '
+         'element kinds are evaluated in the kernel; 1-8 escaped inline elements per paragraph are checked by the oracle.',
+    note=COMMON_NOTE + 'Known finding F21 (two-character quotes escaped twice in one paragraph) is outside the generator and replayed separately.',
+    technique='Lean 4 proof (dispatch equations) + kernel-evaluated instances per element kind + literal-text oracle',
+    ref='7 C17'),
+ 'C18': dict(
+    text='Proved for the model of rimuc.main: the planned inputs are the documented ordered concatenation; trust is decided by position, never by name; named files and '
+         'stdin are rendered under the requested safe mode and everything else at 0; illegal --safe-mode, unknown --layout and missing option values are '
+         'one-line usage errors with exit 1; exit status is 1 iff an error diagnostic was counted, output goes trimmed to stdout or the output file. '
+         'rimuc.main() is run in-process against the model and against the pipeline replayed through rimu.render.',
+    note=COMMON_NOTE + 'File system, text decoding, sys.argv and HOME are parameters of the model (trusted).',
+    technique='Lean 4 proof (list manipulation over the plan) + in-process differential test of rimuc.main',
+    ref='7 C18'),
  'C03': dict(
     text='Proved for the model, universally: text that leaves through replaceSpecialChars has no < or > and every & starts one of its three entities; a group '
          'substituted for $n in any template contains no ", < or > whatever the source and macro table (it cannot end its attribute value or open a tag); '
